@@ -178,7 +178,7 @@ def run(ctx):
         base.check_cases(ctx, cases, area='C09', extra=extra)
         need = ['pam-branch-dn', 'pam-branch-other', 'pam-branch-this', 'pam-accept', 'pam-reject',
                 'cost-decreased', 'cost-unchanged', 'hybrid<=kcenters', 'warm-start-cost<=', 'model-agrees', 'large-n', 'center-index>=256', 'k>255', 'n>65536', 'family=containers', 'family=scaled', 'family=exact-ties',
-                'family=degenerate', 'family=reuse', 'family=config', 'pam-exact-tie-other-candidate',
+                'family=degenerate', 'family=reuse', 'family=config', 'pam-exact-tie-other-candidate', 'pam-exact-tie-with-label-swap',
                 'pam-accept-after-exact-tie', 'same-objects-reused', 'fed-back-rounds-agree', 'proposals=current-medoids',
                 'sweep-by-sweep-agrees', 'reproducible']
         ctx.note('under_covered', [t for t in need if not ctx.tags.get(t)])
